@@ -93,7 +93,7 @@ func ip6(hi, lo byte) []byte {
 var convs = []conv{
 	{false, 6, ip4(10, 0, 0, 1), ip4(10, 0, 0, 2), 50000, 22},
 	{false, 6, ip4(10, 0, 0, 3), ip4(10, 0, 0, 4), 40000, 443},
-	{false, 6, ip4(10, 0, 0, 5), ip4(10, 0, 0, 6), 20, 40000}, // SYN from the low port: heuristics disagree (C22)
+	{false, 6, ip4(10, 0, 0, 5), ip4(10, 0, 0, 6), 20, 40000},  // SYN from the low port: heuristics disagree (C22)
 	{false, 6, ip4(10, 0, 0, 7), ip4(10, 0, 0, 8), 7000, 7000}, // equal ports
 	{false, 17, ip4(192, 168, 1, 7), ip4(8, 8, 8, 8), 40001, 53},
 	{false, 17, ip4(192, 168, 1, 9), ip4(224, 0, 0, 251), 5353, 5353},
@@ -104,6 +104,23 @@ var convs = []conv{
 	{true, 17, ip6(0, 3), ip6(0, 4), 33333, 53},
 	{true, 58, ip6(0, 5), ip6(0, 6), 0, 0},
 	{true, 47, ip6(0, 7), ip6(0, 8), 0, 0},
+	// client port below the server port, non-common ports: IsProbablyReverse() is true for the FORWARD hash, so
+	// packets in the direction of the stored key take the second lookup of the "probably reverse" fast path
+	{true, 6, ip6(2, 1), ip6(2, 2), 40000, 50000},
+	{false, 6, ip4(10, 0, 2, 1), ip4(10, 0, 2, 2), 40000, 50000},
+	{true, 6, ip6(2, 3), ip6(2, 4), 1024, 3306},
+	{false, 6, ip4(10, 0, 2, 3), ip4(10, 0, 2, 4), 1024, 3306},
+	{true, 17, ip6(2, 5), ip6(2, 6), 2000, 4500},
+	{false, 17, ip4(10, 0, 2, 5), ip4(10, 0, 2, 6), 2000, 4500},
+	{true, 17, ip6(2, 7), mcast6(), 546, 547},                        // DHCPv6 solicit to ff02::1:2
+	{false, 17, ip4(10, 0, 2, 7), ip4(255, 255, 255, 255), 137, 138}, // broadcast, sport < dport
+	{false, 17, ip4(0, 0, 0, 0), ip4(255, 255, 255, 255), 68, 67},    // DHCP
+}
+
+func mcast6() []byte {
+	x := make([]byte, 16)
+	x[0], x[1], x[13], x[15] = 0xff, 0x02, 1, 2
+	return x
 }
 
 type builder struct {
@@ -154,6 +171,24 @@ func fixedCases() []input {
 	b.pkt(mkPkt(convs[5], false, 0, 0, 5353), 4, 63).pkt(mkPkt(convs[7], true, 0, 0, 0), 0, 64).pkt(mkPkt(convs[7], false, 0, 0, 0), 4, 65)
 	b.pkt(mkPkt(convs[12], false, 0, 0, 0), 4, 66).pkt(mkPkt(convs[6], true, 0, 0, 0), 0, 67).pkt(mkPkt(convs[6], false, 0, 8, 0), 4, 68)
 	out = append(out, b.ev("rot").in)
+	// flow stored under a hash with sport < dport on non-common ports, then more packets in the SAME direction while
+	// the reverse hash is absent (second lookup of the probably-reverse fast path), IPv6 and IPv4:
+	for _, k := range []int{13, 14} {
+		lo := convs[k]
+		// TCP SYN :40000 -> :50000, SYN retransmission, later client packets, then the reply
+		out = append(out, newBuilder().pkt(mkPkt(lo, false, 0x02, 0, lo.cport), 4, 60).pkt(mkPkt(lo, false, 0x02, 0, lo.cport), 4, 60).
+			pkt(mkPkt(lo, false, 0x10, 0, lo.cport), 4, 52).pkt(mkPkt(lo, true, 0x12, 0, lo.cport), 0, 61).pkt(mkPkt(lo, false, 0x18, 0, lo.cport), 4, 700).ev("rot").in)
+		// mid-stream: first packet without SYN (port heuristics store the reversed key), same direction again, reply, rotation in between
+		out = append(out, newBuilder().pkt(mkPkt(lo, false, 0x10, 0, lo.cport), 4, 52).pkt(mkPkt(lo, false, 0x18, 0, lo.cport), 4, 53).
+			pkt(mkPkt(lo, true, 0x10, 0, lo.cport), 0, 54).ev("rot").pkt(mkPkt(lo, true, 0x10, 0, lo.cport), 0, 55).pkt(mkPkt(lo, true, 0x18, 0, lo.cport), 0, 56).
+			pkt(mkPkt(lo, false, 0x10, 0, lo.cport), 4, 57).ev("rot").in)
+	}
+	for _, k := range []int{19, 20, 21, 17, 18} {
+		mc := convs[k]
+		// repeated UDP to a multicast / broadcast destination (DHCPv6 546 -> ff02::1:2:547 and analogues), unicast UDP both orders
+		out = append(out, newBuilder().pkt(mkPkt(mc, false, 0, 0, mc.cport), 4, 100).pkt(mkPkt(mc, false, 0, 0, mc.cport), 4, 101).
+			pkt(mkPkt(mc, false, 0, 0, mc.cport), 4, 102).ev("rot").pkt(mkPkt(mc, false, 0, 0, mc.cport), 4, 103).pkt(mkPkt(mc, false, 0, 0, mc.cport), 4, 104).ev("rot").in)
+	}
 	return out
 }
 
@@ -166,21 +201,46 @@ func gen(r *vhlib.Rand, i int, o vhlib.Opts) any {
 	b := newBuilder()
 	nc := 2 + r.Intn(3)
 	cs := make([]conv, nc)
+	noVary := make([]bool, nc)
+	swapped := map[int]bool{} // per template, so that two picks of one template agree on the port order
 	for k := range cs {
-		cs[k] = vhlib.Pick(r, convs)
+		ti := r.Intn(len(convs))
+		if r.Chance(45) {
+			ti = 13 + r.Intn(len(convs)-13) // bias to the templates with the client port below the server port
+		}
+		cs[k] = convs[ti]
+		sw, seen := swapped[ti]
+		if !seen {
+			sw = r.Chance(30)
+			swapped[ti] = sw
+		}
+		if sw && (cs[k].proto == 6 || cs[k].proto == 17) {
+			cs[k].cport, cs[k].sport = cs[k].sport, cs[k].cport // the other port order
+		}
+		// client port variations only for the classic shape (ephemeral client port, low server port): the heuristics
+		// then orient all conversations with one server alike, which `holds` uses for "one row per conversation"
+		noVary[k] = !(cs[k].cport >= 32768 && cs[k].sport < 32768)
 	}
+	lastC, lastRev := -1, false
 	nseg := 2 + r.Intn(3)
 	if o.Tier == "thorough" || o.Search {
 		nseg = 2 + r.Intn(5)
 	}
 	for s := 0; s < nseg; s++ {
-		np := r.Intn(5)
+		np := r.Intn(7)
 		if r.Chance(15) {
 			np = 0 // silent interval
 		}
 		for k := 0; k < np; k++ {
-			c := vhlib.Pick(r, cs)
+			ci := r.Intn(nc)
 			rev := r.Bool()
+			if lastC >= 0 && r.Chance(45) {
+				ci, rev = lastC, lastRev // another packet of the same conversation in the same direction
+			} else if lastC >= 0 && r.Chance(25) {
+				ci, rev = lastC, !lastRev // the answer
+			}
+			lastC, lastRev = ci, rev
+			c := cs[ci]
 			// flags a client / a server really sends (the classifier's heuristics then agree on the orientation
 			// of all conversations with one server, C22: c22_tcp_consistent); conflicting ones are in the fixed cases
 			flags := vhlib.Pick(r, []byte{0x02, 0x10, 0x18, 0x11})
@@ -194,8 +254,11 @@ func gen(r *vhlib.Rand, i int, o vhlib.Opts) any {
 				ity = map[bool]byte{false: 128, true: 129}[rev]
 			}
 			cport := c.cport
-			if r.Chance(25) && c.cport >= 32768 {
+			if r.Chance(25) && !noVary[ci] {
 				cport += uint16(1 + r.Intn(2))
+			}
+			if r.Chance(25) {
+				flags = vhlib.Pick(r, []byte{0x10, 0x18}) // mid-stream packet without SYN
 			}
 			d := mkPkt(c, rev, flags, ity, cport)
 			switch r.Intn(30) {
@@ -419,6 +482,10 @@ func run(raw json.RawMessage, o vhlib.Opts) (*vhlib.Case, error) {
 		ts := int64(vsrc.BaseTime + 300*k)
 		rows, ok := db[ts]
 		if !ok {
+			if res.Stalled > 0 { // abandoned run: the remaining write-outs never happened
+				blocks = blocks[:k]
+				break
+			}
 			return nil, fmt.Errorf("no block with timestamp %d in the DB", ts)
 		}
 		blocks[k] = "(" + coqRows(rows[0]) + "," + coqRows(rows[1]) + ")"
@@ -439,9 +506,9 @@ func run(raw json.RawMessage, o vhlib.Opts) (*vhlib.Case, error) {
 	for i, p := range in.Pkts {
 		pk[i] = fmt.Sprintf("(%s,%d,%d)", vhlib.CoqStr(p.D), p.T, p.S)
 	}
-	coq := fmt.Sprintf("(mk_case %s %s %s %s %s)", vhlib.CoqList(pk), vhlib.CoqList(cevs), coqFlows(res.V4), coqFlows(res.V6), vhlib.CoqList(blocks))
+	coq := fmt.Sprintf("(mk_case %s %s %s %s %s %s)", vhlib.CoqList(pk), vhlib.CoqList(cevs), coqFlows(res.V4), coqFlows(res.V6), vhlib.CoqList(blocks), vhlib.CoqNat(res.Stalled))
 	return &vhlib.Case{
-		Observed:   map[string]any{"flowlog_v4": res.V4, "flowlog_v6": res.V6, "blocks": obsBlocks},
+		Observed:   map[string]any{"flowlog_v4": res.V4, "flowlog_v6": res.V6, "blocks": obsBlocks, "stalled": res.Stalled, "aborted": res.Aborted},
 		Tags:       vhlib.SortedCopy(tl),
 		Nontrivial: nrot > 0 && nonIdle > 0,
 		Coq:        coq,
